@@ -43,7 +43,12 @@ META = dict(
          "called mainline / remain / meter / home (thorough also maintain, mean) -- `main` / `me` as prefix or suffix -- in a plain "
          "framer and in a named clone, with the explicit-name inline forms frame.<n>.x, framer.<n>.x, framer.<n>.frame.<n>.x, "
          "actor.<n>.x and the `of frame|framer|actor <n>` forms in put / do via / do per (thorough also need); exact oracle: the "
-         "written names; renaming oracle: to a neutral fresh name and to another keyword-affix name.",
+         "written names; renaming oracle: to a neutral fresh name and to another keyword-affix name.  Explicit-name family: "
+         "framer-level and frame-level `via nd of framer|frame NAME` inodes naming the lexically previous framer / frame (the "
+         "builder's current one while the line is parsed), a later one, the own name, the previous framer's last frame, and the "
+         "inline form, with inode-relative lines (put, need, do via per); and a moot framer naming itself (`x of framer <moot>`, "
+         "inline, `x of frame F of framer <moot>`, `do .. via nd of framer <moot>`) cloned as two named and one insular clone: all "
+         "clones must address the moot's own shared node; exact oracle plus the renaming oracle for every name.",
     note="Inode prefixes are name-free, so oracle 2 is exact about names but says nothing about the literal inode segments; "
          "their layout is only checked for renaming invariance (oracle 1).  `as mine` insular clones (generated tags) and the "
          "`do .. as name via/per` parsing defect of C15 are avoided by writing `at enter` after the doer name.",
@@ -942,6 +947,134 @@ def check_kw(real, addr, p, case):
         p.sample(dict(names=aname, line=line, resolved=mine))
 
 
+# ----------------------------------------------------------------------------- explicit names: lexically previous / own
+#
+# An explicit `of framer NAME` / `of frame NAME` always means the NAMED entity, also when NAME is the framer / frame that
+# happens to be the builder's current one while the line is parsed: (a) a framer-level or frame-level `via .. of framer|frame
+# <lexically previous one>` inode, (b) a moot framer naming itself (`x of framer <moot>`): every clone addresses the
+# moot's own, shared, node -- not its private one.
+
+XLINES = [("put-plain", "put 1 into pl.x", "parm:destination", "{I}.pl.x"),
+          ("need-plain", "go me if pl.x == 1", "parm:state", "{I}.pl.x"),
+          ("do-via-per", "do lit as dxa at enter via cop per v z", "attr:v", "{I}.cop.z")]
+# (id, where the via goes, via text, where the line goes, expected inode prefix)
+XVIAS = [
+    ("framer-via-of-previous-framer", "FB", "nd of framer wfa",              "hrc", "framer.wfa.nd"),
+    ("framer-via-of-later-framer",    "FB", "nd of framer wfg",              "hrc", "framer.wfg.nd"),
+    ("framer-via-of-own-name",        "FB", "nd of framer wfb",              "hrc", "framer.wfb.nd"),
+    ("framer-via-inline-previous",    "FB", "framer.wfa.nd",                 "hrc", "framer.wfa.nd"),
+    ("frame-via-of-previous-frame",   "hrb", "nd of frame hra",              "hrb", "framer.wfa.frame.hra.nd"),
+    ("frame-via-of-later-frame",      "hrb", "nd of frame hrz",              "hrb", "framer.wfa.frame.hrz.nd"),
+    ("frame-via-of-own-name",         "hrb", "nd of frame hrb",              "hrb", "framer.wfa.frame.hrb.nd"),
+    ("frame-via-of-previous-frame-and-framer", "hrb", "nd of frame hra of framer wfa", "hrb", "framer.wfa.frame.hra.nd"),
+    ("first-frame-via-of-previous-framers-last-frame", "hrc", "nd of frame hrz", "hrc", "framer.wfb.frame.hrz.nd"),
+    ("frame-via-of-frame-of-previous-framer", "hrc", "nd of frame hrz of framer wfa", "hrc", "framer.wfa.frame.hrz.nd"),
+]
+XENTS = ["wfa", "wfb", "wfg", "hra", "hrb", "hrz", "hrc", "hrg", ACTOR]
+
+
+def xvia_program(where, viatext, lineframe, line):
+    def v(k):
+        return (" via " + viatext) if where == k else ""
+
+    def at(k):
+        return ["  " + line] if lineframe == k else []
+    src = ["house h",
+           "framer wfa be active first hra", "frame hra", "frame hrb" + v("hrb")] + at("hrb") + ["frame hrz",
+           "framer wfb be active first hrc" + v("FB"), "frame hrc" + v("hrc")] + at("hrc") + [
+           "framer wfg be active first hrg", "frame hrg", ""]
+    return "\n".join(src)
+
+
+# moot naming itself: (id, line, parameter key, expected path per clone; {C} = the clone's framer name)
+XSELF = [
+    ("of-framer-own",        "put 1 into x of framer wfd",                    "parm:destination", "framer.wfd.x"),
+    ("need-of-framer-own",   "go me if x of framer wfd == 1",                 "parm:state",       "framer.wfd.x"),
+    ("inline-framer-own",    "put 1 into framer.wfd.x",                       "parm:destination", "framer.wfd.x"),
+    ("of-frame-of-framer-own", "put 1 into x of frame hrd of framer wfd",     "parm:destination", "framer.wfd.frame.hrd.x"),
+    ("do-via-of-framer-own", "do lit as dxa at enter via nd of framer wfd",   "attr:inode",       "framer.wfd.nd"),
+    ("of-frame-own (control: the clone's own frame)", "put 1 into x of frame hrd", "parm:destination", "framer.{C}.frame.hrd.x"),
+]
+XSELF_ENTS = ["wfa", "wfd", "hra", "hrd", "tgc", "tgk", ACTOR]
+
+
+def xself_program(line):
+    return "\n".join(["house h", "framer wfa be active first hra", "frame hra", "  aux wfd as tgc", "  aux wfd as mine",
+                      "  aux wfd as tgk", "framer wfd be moot first hrd", "frame hrd", "  " + line, ""])
+
+
+def explicit_cases(tier):
+    out = [("via", xv, xl) for xv in XVIAS for xl in XLINES]
+    out += [("self", xs, None) for xs in XSELF]
+    return out
+
+
+def check_explicit(real, addr, p, case):
+    kind, a, b = case
+    if kind == "via":
+        vid, where, viatext, lineframe, prefix = a
+        lid, line, key, tail = b
+        text = xvia_program(where, viatext, lineframe, line)
+        tag = "explicit-via|%s|%s" % (vid, lid)
+        want = {None: tail.replace("{I}", prefix)}
+        ents = XENTS
+    else:
+        sid, line, key, path = a
+        text = xself_program(line)
+        tag = "explicit-self|%s" % sid
+        want = dict((c, path.replace("{C}", c)) for c in ("wfa_tgc", "wfa_wfd1", "wfa_tgk"))
+        ents = XSELF_ENTS
+    rep = dict(script=text, line=line,
+               how="build with ioflo.base.building.Builder; an explicit `of framer NAME` / `of frame NAME` names that entity "
+                   "whatever framer / frame the builder is in when the line is parsed")
+    orig = observe(real, addr, text)
+    p.evaluations += 1
+    if orig[0] != "ok":
+        p.violation("%s|refused" % tag, line, "could not be built: %s" % orig[3], rep)
+        return
+    p.nontrivial(tag)
+    p.outcome("explicit names: built")
+    got = {}
+    for kk, v in sorted(orig[1].items()):
+        if v[1] == line and kk.split("/")[-1] == key:
+            fi = int(kk.split("/")[0])
+            got[orig[3][fi] if kind == "self" else None] = v[0].split(" ", 1)[1]
+    p.evaluations += 1
+    if got != want:
+        p.violation("%s|wrong-path" % tag, line,
+                    "`%s`%s resolves to %r, the explicit names give %r" % (
+                        line, (" under `via %s`" % a[2]) if kind == "via" else " in the clones of moot wfd", got, want),
+                    dict(rep, resolved=got, expected=want))
+    for old in ents:
+        rtext = rename_text(text, old, FRESH)
+        ren = observe(real, addr, rtext)
+        p.evaluations += 1
+        where_ = "rename %s" % old
+        rrep = dict(rep, renamed_script=rtext, rename=[old, FRESH])
+        if ren[0] != "ok":
+            p.violation("%s|build-outcome-depends-on-name" % tag, where_, "after renaming %s the build is refused: %s" % (old, ren[3]), rrep)
+            continue
+        exp_refs = dict((kk, rename_path(v[0], old, FRESH)) for kk, v in orig[1].items())
+        got_refs = dict((kk, v[0]) for kk, v in ren[1].items())
+        if exp_refs != got_refs:
+            diff = [(kk, orig[1].get(kk, ("-",))[0], exp_refs.get(kk), got_refs.get(kk))
+                    for kk in sorted(set(exp_refs) | set(got_refs)) if exp_refs.get(kk) != got_refs.get(kk)]
+            kk, o, e, g = diff[0]
+            p.violation("%s|renamed-map-differs" % tag, where_,
+                        "`%s`: renaming %s -> %s: reference %s resolved to %s before, expected %s after, got %s" % (
+                            line, old, FRESH, kk, o, e, g), dict(rrep, differences=diff[:8]))
+            continue
+        exp_names = sorted(rename_path(nm, old, FRESH) for nm in orig[2])
+        if exp_names != ren[2]:
+            x, y = set(exp_names), set(ren[2])
+            p.violation("%s|renamed-store-differs" % tag, where_, "renaming %s: store shares missing %s, unexpected %s" % (
+                old, sorted(x - y)[:4], sorted(y - x)[:4]), dict(rrep, missing=sorted(x - y), unexpected=sorted(y - x)))
+            continue
+        p.outcome("explicit names rename: %s" % ("line path renamed" if any(rename_path(v, old, FRESH) != v for v in got.values())
+                                                 else "line path unaffected"))
+    p.sample(dict(line=line, via=(a[2] if kind == "via" else None), resolved=got), limit=2)
+
+
 BASE = {}
 
 
@@ -1072,9 +1205,12 @@ def work(arg):
     elif kind == "nested":
         for case in nested_cases(tier)[start:stop]:
             check_nested(real, addr, p, case)
-    else:
+    elif kind == "kw":
         for case in kw_cases(tier)[start:stop]:
             check_kw(real, addr, p, case)
+    else:
+        for case in explicit_cases(tier)[start:stop]:
+            check_explicit(real, addr, p, case)
     return p
 
 
@@ -1141,6 +1277,13 @@ def replay(path):
                     hit = "insular"
                     break
         if hit is None:
+            for case in explicit_cases("thorough"):
+                t = xvia_program(case[1][1], case[1][2], case[1][3], case[2][1]) if case[0] == "via" else xself_program(case[1][1])
+                if t == script:
+                    check_explicit(real, addr, p, case)
+                    hit = "insular"
+                    break
+        if hit is None:
             for case in kw_cases("thorough"):
                 nm = dict(KNEUTRAL)
                 if case[1]:
@@ -1188,8 +1331,11 @@ def run():
     items += [("nested", i, i + 30, core.TIER) for i in range(0, len(cn), 30)]
     ck_ = kw_cases(core.TIER)
     items += [("kw", i, i + CHUNK, core.TIER) for i in range(0, len(ck_), CHUNK)]
+    cx = explicit_cases(core.TIER)
+    items += [("explicit", i, i + 6, core.TIER) for i in range(0, len(cx), 6)]
     ck.merge(core.pmap(work, items))
-    ck.coverage_extra = dict(programs=len(cs), renamings_per_program=len(ENTITIES), collision_programs=len(cc), insular_programs=len(ci), actor_name_programs=len(ca), nested_clone_programs=len(cn), keyword_affix_programs=len(ck_),
+    ck.coverage_extra = dict(programs=len(cs), renamings_per_program=len(ENTITIES), collision_programs=len(cc), insular_programs=len(ci), actor_name_programs=len(ca), nested_clone_programs=len(cn), keyword_affix_programs=len(ck_), explicit_name_programs=len(cx),
+                             explicit_via_forms=[x[0] for x in XVIAS], explicit_self_forms=[x[0] for x in XSELF],
                              keyword_affix_names=KNAMES, keyword_affix_roles=KROLES,
                              nested_clone_tags=[t[0] for t in NTAGS], nested_clone_forms=[f[1] for f in NFORMS],
                              actor_name_triples=[(t[0], t[2]) for t in ATRIPLES], actor_name_clauses=[c[0] for c in ACLAUSES],
